@@ -148,3 +148,45 @@ func HarnessC19Concurrent(a []int) {
 	}
 	verifCover("C19.conc.end")
 }
+
+func init() {
+	verifHarnesses["HarnessC19Many"] = HarnessC19Many
+}
+
+// HarnessC19Many: a = {main, sub, n}: n instances of one name in a row: all distinct objects, each a
+// zero value when handed out, none changed by decoding into another (pools, batches and caches that
+// run out or wrap only after many calls show here).
+func HarnessC19Many(a []int) {
+	name := dptName(a[0], a[1])
+	n := a[2]
+	L := dptWireLen(a[0])
+	if L == 0 {
+		L = 4
+	}
+	first, _ := Produce(name)
+	zero := first.Pack()
+	all := []Datapoint{first}
+	for i := 1; i < n; i++ {
+		d, ok := Produce(name)
+		verifAssert("C19.many.producible", ok && d != nil)
+		z := d.Pack()
+		verifAssert("C19.many.fresh_zero", len(z) == len(zero))
+		for j := range zero {
+			verifAssert("C19.many.fresh_zero", z[j] == zero[j])
+		}
+		for _, o := range all {
+			verifAssert("C19.many.distinct", o != d)
+		}
+		// use the previous instance: must not show in the ones handed out later
+		data := make([]byte, L)
+		for j := 1; j < L; j++ {
+			data[j] = 1
+		}
+		if L == 1 {
+			data[0] = 1
+		}
+		all[len(all)-1].Unpack(data)
+		all = append(all, d)
+	}
+	verifCover("C19.many.end")
+}
